@@ -62,6 +62,7 @@ def edge_cover(c, rng, max_paths=None):
             trs.append((v[0], v[1], v[2]))
     if len(trs) < 1000 or abs(gen.generated - len(trs)) > 8:
         raise vlib.Infra("transitions printed: %d, states generated: %d" % (len(trs), gen.generated))
+    trs.sort(key=lambda t: json.dumps(t, sort_keys=True))      # several TLC workers: the print order varies, the cover must not
     tree = _tree_of(gen.out, "N0")
 
     def is_init(s):
